@@ -113,6 +113,24 @@ class FakeQuery(object):
         return n
 
 
+def _apply_column_defaults(o):
+    """INSERT semantics of the ORM: a mapped attribute that is None and whose column has a
+    scalar default is stored (and read back) as that default (e.g. operation_policy_name
+    'default' for objects made by Create/Register)."""
+    import sqlalchemy
+    mapper = sqlalchemy.inspect(type(o))
+    for attr in mapper.column_attrs:
+        col = attr.columns[0]
+        d = col.default
+        if d is not None and getattr(d, "is_scalar", False):
+            try:
+                cur = getattr(o, attr.key)
+            except Exception:
+                continue
+            if cur is None:
+                setattr(o, attr.key, d.arg)
+
+
 class FakeSession(object):
     """Also the context manager returned by ``_data_store_session_factory()``."""
 
@@ -143,8 +161,10 @@ class FakeSession(object):
     def commit(self):
         for o in self.objs:
             if o.unique_identifier is None:
-                o.unique_identifier = self.next_id
-                self.next_id += 1
+                with NoTracing():
+                    o.unique_identifier = self.next_id
+                    self.next_id += 1
+                    _apply_column_defaults(o)
         self.log.append(("commit", self.pending))
         self.pending = False
 
